@@ -10,6 +10,7 @@ import (
 	"encoding/json"
 	"fmt"
 	"os"
+	"runtime/debug"
 	"strconv"
 	"strings"
 
@@ -254,6 +255,78 @@ func Try(f func()) (panicked bool) {
 
 func PanicMsg() string { return lastPanic }
 
+// NoPanic runs f; a panic is a violation labelled label@file:line of the panic site.
+func NoPanic(f func(), label string) (ok bool) {
+	defer func() {
+		if r := recover(); r != nil {
+			if _, isA := r.(assumeFailed); isA {
+				panic(r)
+			}
+			site := panicSite(string(debug.Stack()))
+			lastPanic = fmt.Sprint(r)
+			Failures = append(Failures, label+"@"+site)
+			fmt.Printf("ASSERT-FAIL %s@%s %v\n", label, site, r)
+			ok = false
+		}
+	}()
+	f()
+	return true
+}
+
+// panicSite extracts the file:line (relative to the repository root) of the
+// frame that raised the panic from a stack dump taken in the recovering defer.
+func panicSite(stack string) string {
+	lines := strings.Split(stack, "\n")
+	// find the "panic(" frame, then the first frame below it that is not in the Go runtime
+	seenPanic := false
+	for i := 0; i+1 < len(lines); i++ {
+		l := lines[i]
+		if strings.HasPrefix(l, "panic(") {
+			seenPanic = true
+			continue
+		}
+		if !seenPanic || strings.HasPrefix(l, "\t") {
+			continue
+		}
+		loc := strings.TrimSpace(lines[i+1])
+		if strings.Contains(loc, "/src/runtime/") || strings.Contains(loc, "/go/src/") || strings.Contains(loc, "/libexec/") {
+			continue
+		}
+		if j := strings.Index(loc, " +0x"); j >= 0 {
+			loc = loc[:j]
+		}
+		for _, root := range []string{"/repo/", "/verif/"} {
+			if k := strings.Index(loc, root); k >= 0 {
+				loc = loc[k+len(root):]
+				break
+			}
+		}
+		return loc
+	}
+	return "?"
+}
+
+var params map[string]int
+
+// Param returns a bound chosen per tier by the checker (def when unset).
+func Param(name string, def int) int {
+	if params == nil {
+		params = map[string]int{}
+		if s := os.Getenv("VERIF_PARAMS"); s != "" {
+			json.Unmarshal([]byte(s), &params)
+		}
+	}
+	if v, ok := params[name]; ok {
+		return v
+	}
+	return def
+}
+
+// Trace records a value for translator validation (native vs engine, concrete mode).
+func Trace(label string, b []byte) { fmt.Printf("TRACE %s=%s\n", label, hex.EncodeToString(b)) }
+
+func TraceInt(label string, v uint64) { fmt.Printf("TRACE %s=%d\n", label, v) }
+
 // RunNative runs a harness natively and reports assertion failures / panics.
 func RunNative(f func()) (failures []string) {
 	Failures = nil
@@ -264,8 +337,9 @@ func RunNative(f func()) (failures []string) {
 					fmt.Println("ASSUME-FAIL")
 					return
 				}
-				Failures = append(Failures, "uncaught-panic")
-				fmt.Printf("ASSERT-FAIL uncaught-panic %v\n", r)
+				site := panicSite(string(debug.Stack()))
+				Failures = append(Failures, "uncaught-panic@"+site)
+				fmt.Printf("ASSERT-FAIL uncaught-panic@%s %v\n", site, r)
 			}
 		}()
 		f()
